@@ -242,7 +242,7 @@ func genCaseAScaled(t *rapid.T, allowBad bool, lim scaleLim) CaseA {
 	c.SMB = rapid.IntRange(0, 3).Draw(t, "transport") == 0
 	c.HTTP = genHTTP(t)
 	c.Pipe = SMBL{PipeName: rapid.SampledFrom(pipePool).Draw(t, "pipe"), KillDate: rapid.SampledFrom(killDates).Draw(t, "pipe-killdate"), WorkingHours: genHours(t)}
-	if rapid.IntRange(0, 39).Draw(t, "scale?") == 0 {
+	if v := rapid.IntRange(0, 39).Draw(t, "scale?"); v == 13 || v == 27 { // (inner values: rapid favours the ends of a range; about 1 case in 45)
 		applyScale(t, &c, lim) // scale_test.go; the spoiling below is the "one more ordinary step" after the bulk
 	}
 	if allowBad && rapid.IntRange(0, 9).Draw(t, "spoil?") < 3 {
@@ -531,6 +531,7 @@ func verifyFields(c CaseA, raw []byte, report func(*core.Violation)) {
 	if len(d.Hosts) != len(l.Hosts) {
 		bad("Transport.Hosts", "count", "Demon reads %d hosts, listener has %d (%v)", len(d.Hosts), len(l.Hosts), l.Hosts)
 	} else {
+		wantOf := map[string]string{} // one lookup per distinct host part and comparison
 		for i, h := range l.Hosts {
 			name, port, q := h, fallback, "fallback-port|"+fbq
 			if j := strings.Index(h, ":"); j >= 0 {
@@ -540,7 +541,12 @@ func verifyFields(c CaseA, raw []byte, report func(*core.Violation)) {
 			// a host that is the name of an interface of this machine stands for that
 			// interface's IPv4 address (looked up by the harness itself); anything else
 			// is packed as written
-			if want := wantHostName(name); d.Hosts[i].Host.S != want {
+			want, ok := wantOf[name]
+			if !ok {
+				want = wantHostName(name)
+				wantOf[name] = want
+			}
+			if d.Hosts[i].Host.S != want {
 				nq := "name"
 				if want != name {
 					nq = "name|interface-name"
@@ -784,6 +790,11 @@ func classifyA(c CaseA) core.Class {
 		}
 		tr = fmt.Sprintf("http|%s|hh+h=%v", hp, l.HostHeader != "" && len(l.Headers) > 0)
 	}
+	sl := scaleLabels(c)
+	cl.Labels = append(cl.Labels, sl...)
+	if len(sl) > 0 {
+		tr += "|scale"
+	}
 	nd := nonDefaults(o)
 	cl.NonTrivial = nd >= 2 || len(e.MustFail) > 0
 	ndb := "0-1"
@@ -804,7 +815,7 @@ func classifyA(c CaseA) core.Class {
 func TestC13a(t *testing.T) {
 	core.Run(t, core.Spec[CaseA]{
 		Property: "C13", Sub: "a",
-		Rule: "build options as the client sends them (every combo-box choice of Sleep Technique, Sleep Jmp Gadget, Proxy Loading, Amsi/Etw Patch, Injection Alloc/Execute; both check boxes; Sleep 0..2^31-1 and Jitter 0..100 incl. boundaries; spawn paths incl. spaces and non-BMP characters) x listener (HTTP: 1-4 hosts with/without ':port', PortConn set/unset with PortBind fallback, TLS, user agent, 0-4 headers +/- host header, 0-4 URIs, proxy with/without credentials, method spelling, rotation, kill date, working hours; SMB: pipe name, kill date, working hours), 30% spoiled with one or two unencodable settings (method GET, non-numeric / out-of-range port in PortConn, PortBind or a host, malformed / out-of-range / inverted working hours, non-numeric sleep or jitter, jitter outside 0..100). Builder driven as dispatch.go does; oracle: PatchConfig() bytes parsed by a transcription of DemonConfig() equal the chosen options (integers as the Demon's C headers define them) and listener settings; a second Builder on the same listener yields identical bytes and the listener's config stays deep-equal to a copy; unencodable => error and no bytes. Non-trivial: >=2 options away from the client's defaults, or an unencodable setting; distinct = (outcome class, technique, gadget, #non-defaults, transport shape). HOST VALUES (every sub-check that generates a listener draws them, labels host:<class>[+port]): the host part of every entry of Hosts is one of {name / IPv4 address of the fixed pool 8/20 | the NAME of a network interface this machine really has, with an IPv4 address (net.Interfaces() at run time; e.g. lo, eth0) 4/20 | such a name in another letter case (LO, Lo) 2/20 | a proper prefix, suffix or extension of such a name (l, o, lo0, lox, xlo, lo-1, lolo) 2/20 | the name of an interface without IPv4 address 1/20 | an IPv4 literal incl. 0.0.0.0, 255.255.255.255 and the interfaces' own addresses 2/20 | a pool name or an interface name with a trailing dot 1/20}, each with and without ':port' (half each), combined with the PortConn / PortBind fallback; the proxy host is an interface name in 1 case of 3 or so. Oracle for a host (HEAD's documented rule): an entry whose host part is byte-exactly the name of an interface with an IPv4 address is packed as that interface's first IPv4 address - looked up by the harness with net.InterfaceByName(name).Addrs() at the moment of the comparison - with the entry's own port, or the fallback port if it has none; every other host part (other letter case, prefix/extension, trailing dot, interface without IPv4, literal) is packed as written; order as in the listener. The proxy host is always packed as written. Two more ways to spoil a listener: an IPv6 literal as host entry, with or without brackets and port (::1, fe80::1, 2001:db8::1, [::1]:443, ...): the text after the first ':' is not a port number, so the build must fail (label host:ipv6*); and an IPv6 literal whose second group is a decimal number (2001:470::1, [2001:470::1]:443; label ...|numeric-second-group): the same verdict under the reason host-port-extra-colon-after-number",
+		Rule: "build options as the client sends them (every combo-box choice of Sleep Technique, Sleep Jmp Gadget, Proxy Loading, Amsi/Etw Patch, Injection Alloc/Execute; both check boxes; Sleep 0..2^31-1 and Jitter 0..100 incl. boundaries; spawn paths incl. spaces and non-BMP characters) x listener (HTTP: 1-4 hosts with/without ':port', PortConn set/unset with PortBind fallback, TLS, user agent, 0-4 headers +/- host header, 0-4 URIs, proxy with/without credentials, method spelling, rotation, kill date, working hours; SMB: pipe name, kill date, working hours), 30% spoiled with one or two unencodable settings (method GET, non-numeric / out-of-range port in PortConn, PortBind or a host, malformed / out-of-range / inverted working hours, non-numeric sleep or jitter, jitter outside 0..100). Builder driven as dispatch.go does; oracle: PatchConfig() bytes parsed by a transcription of DemonConfig() equal the chosen options (integers as the Demon's C headers define them) and listener settings; a second Builder on the same listener yields identical bytes and the listener's config stays deep-equal to a copy; unencodable => error and no bytes. Non-trivial: >=2 options away from the client's defaults, or an unencodable setting; distinct = (outcome class, technique, gadget, #non-defaults, transport shape). HOST VALUES (every sub-check that generates a listener draws them, labels host:<class>[+port]): the host part of every entry of Hosts is one of {name / IPv4 address of the fixed pool 8/20 | the NAME of a network interface this machine really has, with an IPv4 address (net.Interfaces() at run time; e.g. lo, eth0) 4/20 | such a name in another letter case (LO, Lo) 2/20 | a proper prefix, suffix or extension of such a name (l, o, lo0, lox, xlo, lo-1, lolo) 2/20 | the name of an interface without IPv4 address 1/20 | an IPv4 literal incl. 0.0.0.0, 255.255.255.255 and the interfaces' own addresses 2/20 | a pool name or an interface name with a trailing dot 1/20}, each with and without ':port' (half each), combined with the PortConn / PortBind fallback; the proxy host is an interface name in 1 case of 3 or so. Oracle for a host (HEAD's documented rule): an entry whose host part is byte-exactly the name of an interface with an IPv4 address is packed as that interface's first IPv4 address - looked up by the harness with net.InterfaceByName(name).Addrs() at the moment of the comparison - with the entry's own port, or the fallback port if it has none; every other host part (other letter case, prefix/extension, trailing dot, interface without IPv4, literal) is packed as written; order as in the listener. The proxy host is always packed as written. Two more ways to spoil a listener: an IPv6 literal as host entry, with or without brackets and port (::1, fe80::1, 2001:db8::1, [::1]:443, ...): the text after the first ':' is not a port number, so the build must fail (label host:ipv6*); and an IPv6 literal whose second group is a decimal number (2001:470::1, [2001:470::1]:443; label ...|numeric-second-group): the same verdict under the reason host-port-extra-colon-after-number. SCALE (about 1 configuration in 45 of every sub-check that generates one; labels scale:<what>:<bucket>, buckets 64-129, 255-513, 999-1025, 2047-4097, 8191+): one (1 in 4: two) of {a NUMBER of hosts from the threshold-adjacent pool 63,64,65,127,128,129,255,256,257 (cut there in the quick tier because HEAD asks the kernel for the interface table once per host; up to 1025 in the thorough tier; up to 65 where Build() follows) with short names, names of 63-253 characters, a mix, or every fourth an interface name, every second with ':port' | a NUMBER of headers | of URIs from 63..1025 (thorough: ..8193; 129 where Build() follows), values of 1-129 characters | the LENGTH of one string field - spawn path, pipe name, user agent, a header, a URI, host header, proxy host / user / password: 63..8193 UTF-16 code units (..2049 where Build() follows, as far as the block stays below 4096+64 bytes); a host name: 63..253 characters - filled with ASCII, BMP or non-BMP characters | the TOTAL size of the packed block: one of those fields padded so that the block has exactly B+d bytes, B in 4096, 8192, 16384, 65536 (4096 only where Build() follows), d even in -64..+64 and dense in -12..+12, the size being computed by the harness from the Demon's reading order}; the ordinary generator's hosts / headers / URIs stay in the list - first, in the middle of and after the bulk - and spoiling is applied afterwards. PatchConfig has no limits of its own on HEAD; the oracle is the same field-by-field reading",
 		Gen:  genA, Check: checkA, Classify: classifyA,
 		Assumptions: []string{
 			"option strings are exactly the choices the client's payload dialog offers; the config document has the client's shape (all keys present)",
